@@ -224,6 +224,7 @@ pub fn world_b_general(property: &str, scenario: &str, seed: u64, run: u64, sc: 
     if !sc.ideal {
         let eps: Vec<usize> = std::iter::once(0).chain(topo.clients.iter().cloned()).collect();
         socket_faults(&mut plan, seed, run, &eps, if sc.heal { sc.fault_until_us } else { sc.horizon_us });
+        clock_jumps(&mut plan, seed, run, &eps, if sc.heal { sc.fault_until_us } else { sc.horizon_us });
     }
     plan.params.insert("short_ch".into(), short_ch as f64);
     plan.end_us = sc.horizon_us;
